@@ -14,7 +14,7 @@ import (
 // evaluated (fault_enumeration).
 
 func init() {
-	drivers["C05"] = &driver{cases: tierN(40, 1500), run: runC05}
+	drivers["C05"] = &driver{cases: tierN(160, 1500), run: runC05}
 }
 
 // try runs f and reports whether it recorded a violation (which is removed).
@@ -394,6 +394,13 @@ func runC05(k int, rng *Rng) CaseResult {
 		if cfg.Async != 0 {
 			cfg.Async = 2
 			cfg.Threshold = pick(rng, []int{1, 3})
+		}
+		// the omitempty field is indexed often: a Repair that re-indexes several unindexed files
+		// must give each entry the values of its own file (absent fields included)
+		if rng.P(0.5) {
+			c := cfg.Fields["O"]
+			c.Index = true
+			cfg.Fields["O"] = c
 		}
 	}
 	root := caseDir(k, "c05")
